@@ -20,7 +20,10 @@ use crate::evaluate::{player_is_in_check, player_is_in_checkmate};
 use common::bitboard::bitboard::Bitboard;
 use common::bitboard::square::*;
 use lru::LruCache;
+#[cfg(not(chess_verif_shuttle))]
 use rayon::prelude::*;
+#[cfg(chess_verif_shuttle)]
+use verif_simpool::prelude::*;
 use smallvec::{smallvec, SmallVec};
 use targets::Targets;
 
